@@ -10,7 +10,7 @@ Go code mirrored (bb-remote-execution):
     - the flusher closure returned by
       `NewBatchedStoreBlobAccess`         -> `flusher`
 * `pkg/builder/build_executor.go`
-    - `attachErrorToExecuteResponse`      -> `attachError`
+    - `attachErrorToExecuteResponse`      -> `attachError` (`status.ErrorProto` -> `Status.err`)
     - `executeResponseIsSuccessful`       -> `isSuccessful`
 * `pkg/builder/storage_flushing_build_executor.go`
     - `Execute` (part after base.Execute) -> `flushingPost`
@@ -219,11 +219,25 @@ def stepOp (h : Hist) : StoreOp → Hist
 
 def runOps (h : Hist) (ops : List StoreOp) : Hist := ops.foldl stepOp h
 
+/-- `ExecuteResponse.Status` as a representation: the field may be unset, an
+explicit `google.rpc.Status{code: OK}` (with or without a message string), or
+an error with a code.  The first three all mean "no error". -/
+inductive Status where
+  | unset
+  | ok (withMessage : Bool)
+  | error (c : Code)
+deriving Repr, DecidableEq
+
+/-- `status.ErrorProto(s)`: nil for an unset status *and* for an explicit OK. -/
+def Status.err : Status → Option Code
+  | .error c => some c
+  | _ => none
+
 /-- The parts of `ExecuteResponse` the property talks about.  `dirs` holds
 tree and root-directory digests of all output directories (flattened);
 `message`: 0 none, 1 "cached result", 2 "uncached result". -/
 structure Response where
-  status : Option Code
+  status : Status
   exitCode : Nat
   files : List Digest
   dirs : List Digest
@@ -239,13 +253,13 @@ def Response.refs (r : Response) : List Digest :=
 
 /-- `attachErrorToExecuteResponse`. -/
 def attachError (r : Response) (c : Code) : Response :=
-  match r.status with
-  | none => { r with status := some c }
+  match r.status.err with
+  | none => { r with status := .error c }
   | some _ => r
 
 /-- `executeResponseIsSuccessful`. -/
 def isSuccessful (r : Response) : Bool :=
-  r.status.isNone && r.exitCode == 0
+  r.status.err.isNone && r.exitCode == 0
 
 /-- `storageFlushingBuildExecutor.Execute` after the base executor returned
 `resp`: flush, attach, prune.  Returns the store, the response and the flush error. -/
